@@ -187,7 +187,7 @@ def run_shard(sh):
     from mc.ref.model import Conf
     ref = Conf()
     rec = Recorder(sh["index"], sh["count"], sh["seed"])
-    k = 3 if sh["tier"] == "thorough" else 2
+    k = 3 if sh["tier"] == "thorough" else (1 if sh["tier"] == "c20" else 2)
     import json
     for case in cases(ref, k):
         key = json.dumps(case, sort_keys=True)
